@@ -1,4 +1,5 @@
 import IofloModel.Lemmas.Imports
+import IofloModel.Lemmas.ImportsFrame
 import IofloModel.Lemmas.ImportsCold0
 import IofloModel.Lemmas.ImportsCold1
 import IofloModel.Lemmas.ImportsCold2
@@ -205,6 +206,37 @@ theorem C01_first_noncore_partial (pre : List Mod) (m : Mod)
     simp only [importAll, List.map_cons, List.cons_append]
     show none :: (List.map (fun _ => none) rest ++ [(importChain graph rootState (graph.chain m)).2]) = _
     rw [hcold]
+
+/-! ## namespaces of finished modules are stable -/
+
+attribute [irreducible] rootState
+
+theorem import_root : importModule graph (fresh graph) root = (rootState, none) := by
+  have h := cold_root
+  unfold cold at h
+  exact h
+
+theorem rootState_wf : WF rootState := by
+  have h := (importModule_frame graph (fresh graph) root (fresh_wf graph)).wf
+  rw [import_root] at h
+  exact h
+
+/-- **C01, what earlier imports can change.**  Start from any state in which every finished module is in
+`sys.modules` (for instance a newly started interpreter, or the state after `import ioflo`) and execute ANY
+sequence of imports (modules of the tree or not, succeeding or failing).  Then, for every module `x` that had
+finished initialising before: `x` is still in `sys.modules` and still finished, and every name `k` of its
+namespace is bound exactly as before — unless `k` is the name of a sub-module of `x` that has been loaded
+meanwhile, in which case `k` is now bound to that sub-module.  (Instance of the generic `importAll_frame`.)
+This is why a later import can only depend on earlier ones through sub-module attributes of packages. -/
+theorem C01_finished_namespaces_stable (s : State) (hwf : WF s) (ms : List Mod) (x : Mod)
+    (hp : s.isPresent x = true) (hd : s.isDone x = true) :
+    (importAll graph s ms).1.isPresent x = true ∧ (importAll graph s ms).1.isDone x = true ∧
+    ∀ k, CellOK graph s (importAll graph s ms).1 x k := by
+  have f := importAll_frame graph ms s hwf
+  exact ⟨f.mono x hp, by rw [f.done x hp]; exact hd, f.cells x hp hd⟩
+
+/-- non-vacuity: the fresh interpreter and the state after `import ioflo` satisfy the hypothesis -/
+example : WF (fresh graph) ∧ WF rootState := ⟨fresh_wf graph, rootState_wf⟩
 
 /-- **C01, once imported, always importable** (generic lemma `importModule_again` on this graph): after a
 successful import of `m` in any state and any further imports, importing `m` again succeeds. -/
